@@ -11,6 +11,7 @@ def main():
     ap.add_argument("--only", nargs="*")
     ap.add_argument("--tier", default="quick")
     ap.add_argument("--seed", default="1")
+    ap.add_argument("--resume", action="store_true", help="skip commits that already have a result")
     a = ap.parse_args()
     st = subprocess.run(["git", "-C", "/repo", "status", "--porcelain", "--untracked-files=no"], capture_output=True, text=True).stdout.strip()
     if st:
@@ -23,6 +24,8 @@ def main():
         if f.get("state") == "fixed" and f.get("commit") and (not a.only or f["commit"] in a.only):
             todo.setdefault(f["commit"], []).append(f)
     for c, fs in todo.items():
+        if a.resume and c in res and (not res[c].get("applies") or res[c].get("checks")):
+            continue
         checks = sorted(set(f["key"].split("|")[0] for f in fs))
         patch = subprocess.run(["git", "-C", "/repo", "diff", c, c + "~1"], capture_output=True, text=True).stdout
         pf = "/tmp/refix-%s.diff" % c
